@@ -475,14 +475,24 @@ def main(pid, fn):
         fn(ctx)
         rc = finish(ctx)
     except Inconclusive as ex:
-        print("INCONCLUSIVE property=%s: %s" % (pid, ex))
-        ctx.notes.append("inconclusive: %s" % ex)
-        try:
-            ctx.level = "other"
-            finish(ctx, {"explanation": "run was inconclusive: %s" % ex})
-        except Exception:
-            pass
-        rc = 2
+        if ctx.violations:
+            # violations already established from the real code's behaviour stand: a later stage that could not be
+            # completed (e.g. a self-test that found no suitable accepted segment on a broken tree) does not undo them
+            print("NOTE property=%s: a later stage was inconclusive (%s); the violations above stand" % (pid, ex))
+            ctx.notes.append("a later stage was inconclusive: %s" % ex)
+            try:
+                rc = finish(ctx)
+            except Exception:
+                rc = 1
+        else:
+            print("INCONCLUSIVE property=%s: %s" % (pid, ex))
+            ctx.notes.append("inconclusive: %s" % ex)
+            try:
+                ctx.level = "other"
+                finish(ctx, {"explanation": "run was inconclusive: %s" % ex})
+            except Exception:
+                pass
+            rc = 2
     except Exception as ex:       # a fault of the machinery itself is never a verdict about the code
         import traceback
         traceback.print_exc()
